@@ -108,7 +108,7 @@ CHECKS["C16"] = dict(level="exploration", ref="6/C16",
 
 CHECKS["C09"] = dict(level="exploration", ref="6/C09",
    text="Decoders created INSIDE the run and driven by seeded histories of public API calls from logical producer/observer/mutator tasks (grammars incl. refused ones, words, "
-        "start/feed/end in chunks, hypotheses, segment/N-best/alignment iterators finished, abandoned or freed early, lattices with best path / posterior / posterior pruning down to nothing / N-best again, JSON, CMN, retain/free, reinit), ~15% out-of-order or "
+        "start/feed/end in chunks, hypotheses, segment/N-best/alignment iterators finished, abandoned or freed early, lattices with best path / posterior / posterior pruning down to nothing / node and link iterators / N-best again, alignments walked by index on all three levels (goto inside, last, past the end; children), JSON, CMN, retain/free, reinit), ~15% out-of-order or "
         "degenerate calls (28 kinds, incl. grammar / add_word inside an utterance and reinitialisations refused at the front-end, model or dictionary stage), decoder_free mid-utterance, and a seeded crash point after which every reference is released. Oracle: no abnormal termination (ASan), "
         "documented failure values, the canary utterance still decodes to the canary record on every surviving decoder (bounded liveness once misuse stops), and an allocation "
         "ledger (sanitizer malloc/free hooks armed only while a library call is on the stack) empty after the last release, leak site taken from ASan's allocation stack.",
